@@ -1289,11 +1289,21 @@ func SelectExpr(query *Query, current Map, expr *sqlparser.SelectExprs, opts ...
 						if key == "<-" {
 							continue
 						}
+						name := key
 						if len(prefix) > 0 {
-							data[fmt.Sprintf("%s.%s", prefix, key)] = value
-							continue
+							name = fmt.Sprintf("%s.%s", prefix, key)
 						}
-						data[key] = value
+						data[name] = value
+						// the fused row of a nested select may hold the pending slot of an
+						// ASYNC call: that select resolves it in its own row only
+						if slot, ok := value.(*any); ok {
+							query.postProcessors = append(query.postProcessors, func() error {
+								if current, ok := data[name].(*any); ok && current == slot {
+									data[name] = *slot
+								}
+								return nil
+							})
+						}
 					}
 					continue
 				}
